@@ -124,7 +124,7 @@ def check_tree(pt, acc, desc, directory, off_teal, rng):
     from ..common import PT_ERRORS, h, reset_globals
     reset_globals()
     acc.evaluations += 1
-    case = {"tree": {k: desc.get(k) for k in ("main", "entry", "version", "nlines", "repeats", "assemble")}, "sources": [open(p).read() for p in desc["files"]]}
+    case = {"tree": {k: desc.get(k) for k in ("main", "entry", "version", "nlines", "repeats", "assemble", "typetrack")}, "sources": [open(p).read() for p in desc["files"]]}
     try:
         m = importlib.import_module(desc["main"])
         router = desc["entry"] == "router"
@@ -135,16 +135,28 @@ def check_tree(pt, acc, desc, directory, off_teal, rng):
             # would be a different program as far as slot numbering goes (that is C11's territory, not the source map's)
             prog = m.program()
             asm = bool(desc.get("assemble"))
-            plain = pt.Compilation(prog, pt.Mode.Application, version=desc["version"], assemble_constants=asm).compile().teal
-            res = pt.Compilation(prog, pt.Mode.Application, version=desc["version"], assemble_constants=asm).compile(with_sourcemap=True, teal_filename="gen.teal", **opts)
+            tt = {} if desc.get("typetrack", True) else {"assembly_type_track": False}
+            plain = pt.Compilation(prog, pt.Mode.Application, version=desc["version"], assemble_constants=asm, **tt).compile().teal
+            try:
+                res = pt.Compilation(prog, pt.Mode.Application, version=desc["version"], assemble_constants=asm, **tt).compile(with_sourcemap=True, teal_filename="gen.teal", **opts)
+            except Exception as e:
+                # the plain compilation of the same object has just succeeded: asking for the map must not turn that into a failure
+                acc.violation("sourcemap_request_fails", dict(case, typetrack=desc.get("typetrack", True)), "plain compilation succeeds, compile(with_sourcemap=True) raises %s: %s" % (type(e).__name__, " ".join(str(e).split())[:300]))
+                return
             mapped_teal, sm = res.teal, res.sourcemap
             maps = [(mapped_teal, sm)]
+            if tt:
+                acc.counters["typetrack_off_trees"] += 1
         else:
             router_obj = m.router()
             asm = bool(desc.get("assemble"))
             ap, cl, _ = router_obj.compile_program(version=desc["version"], assemble_constants=asm)
             plain = ap + "\n=====\n" + cl
-            rr = router_obj.compile(version=desc["version"], assemble_constants=asm, with_sourcemaps=True, approval_filename="a.teal", clear_filename="c.teal", **opts)
+            try:
+                rr = router_obj.compile(version=desc["version"], assemble_constants=asm, with_sourcemaps=True, approval_filename="a.teal", clear_filename="c.teal", **opts)
+            except Exception as e:
+                acc.violation("sourcemap_request_fails", dict(case, router=True), "compile_program succeeds, Router.compile(with_sourcemaps=True) raises %s: %s" % (type(e).__name__, " ".join(str(e).split())[:300]))
+                return
             mapped_teal = rr.approval_teal + "\n=====\n" + rr.clear_teal
             maps = [(rr.approval_teal, rr.approval_sourcemap), (rr.clear_teal, rr.clear_sourcemap)]
             acc.counters["router_trees"] += 1
@@ -358,7 +370,7 @@ def run_shard(shard):
             descs = [smgen.generate(rng, d, "%d_%d" % (shard["shard"], i)) for i in range(shard["n"])]
         # gate-off process
         cases_p, out_p = os.path.join(d, "cases.json"), os.path.join(d, "off.json")
-        json.dump([{k: x.get(k) for k in ("main", "entry", "version", "assemble")} for x in descs], open(cases_p, "w"))
+        json.dump([{k: x.get(k) for k in ("main", "entry", "version", "assemble", "typetrack")} for x in descs], open(cases_p, "w"))
         env = pool.worker_env()
         cp = subprocess.run([pool.PY, "-m", "vlib.c15off", d, cases_p, out_p], cwd=pool.VERIF, env=env, timeout=600, stdout=subprocess.PIPE, stderr=subprocess.PIPE, text=True)
         off = json.load(open(out_p)) if os.path.exists(out_p) else {}
